@@ -5,6 +5,7 @@ import Mrpro.Model.AlgebraExec
 import Mrpro.Model.CG
 import Mrpro.Model.Functional
 import Mrpro.Model.PowerIter
+import Mrpro.Model.Signal
 open Lean M M.Proto
 
 def getTrajComp (j : Json) (k : String) : Except String TrajComp := do
@@ -102,6 +103,34 @@ def arrOpsF : VecOps Float (Array CFloat) where
   sub := fun u v => Array.zipWith (· - ·) u v
   smul := fun c v => v.map (fun z => ⟨c * z.re, c * z.im⟩)
   dot := fun u v => (Array.zipWith (fun a b => a.re * b.re + a.im * b.im) u v).foldl (· + ·) 0
+
+def parseBound (j : Json) : Except String (Bound Float) := do
+  let k ← getStr j "k"
+  match k with
+  | "none" => pure .none | "neginf" => pure .negInf | "posinf" => pure .posInf
+  | "fin" => pure (.fin ((← getFloats j "v").headD 0.0))
+  | _ => throw "bound"
+
+def signalFn (fn : String) (a : Array Float) : Except String Float :=
+  let g := fun i => a.getD i 0.0
+  match fn with
+  | "invRec" => pure (invRec (g 0) (g 1) (g 2))
+  | "satRec" => pure (satRec (g 0) (g 1) (g 2))
+  | "monoExp" => pure (monoExp (g 0) (g 1) (g 2))
+  | "molli" => pure (molli (g 0) (g 1) (g 2) (g 3))
+  | "tss" => pure (tss (g 0) (g 1) (g 2) (g 3) (g 4) (g 5) (g 6))
+  | "wasabi" => pure (wasabi (g 0) (g 1) (g 2) (g 3) (g 4) (g 5) (g 6) (g 7))
+  | "wasabiti" => pure (wasabiti (g 0) (g 1) (g 2) (g 3) (g 4) (g 5) (g 6) (g 7))
+  | "invRec_dm0" => pure (invRec_dm0 (g 0) (g 1) (g 2))
+  | "invRec_dt1" => pure (invRec_dt1 (g 0) (g 1) (g 2))
+  | "satRec_dm0" => pure (satRec_dm0 (g 0) (g 1) (g 2))
+  | "satRec_dt1" => pure (satRec_dt1 (g 0) (g 1) (g 2))
+  | "monoExp_dm0" => pure (monoExp_dm0 (g 0) (g 1) (g 2))
+  | "monoExp_dtd" => pure (monoExp_dtd (g 0) (g 1) (g 2))
+  | "molli_da" => pure (molli_da (g 0) (g 1) (g 2) (g 3))
+  | "molli_dc" => pure (molli_dc (g 0) (g 1) (g 2) (g 3))
+  | "molli_dt1" => pure (molli_dt1 (g 0) (g 1) (g 2) (g 3))
+  | _ => throw s!"signal fn {fn}"
 
 /-- one structural linear operator (forward or adjoint code path) on exact complex data -/
 def linop (j : Json) (x : Tensor CRat) : Except String (Except ErrKind (Tensor CRat)) := do
@@ -231,6 +260,19 @@ def handle (j : Json) : Except String Json := do
       let stop := fun (est old : Float) => (atol > 0.0 || rtol > 0.0) && (Float.abs (est - old) ≤ atol + rtol * Float.abs old)
       let r := if shipped then powerRunShipped arrOpsF Float.sqrt G stop v0 maxIter else powerRun arrOpsF Float.sqrt G stop v0 maxIter
       pure (Json.mkObj [("norm", floatsJson [r.1]), ("callbacks", floatsJson r.2)])
+  | "signal" =>
+      let fn ← getStr j "fn"
+      let rows ← j.getObjValAs? (Array (Array Nat)) "args"
+      let outs ← rows.toList.mapM (fun r => signalFn fn (r.map (fun b => Float.ofBits b.toUInt64)))
+      pure (Json.mkObj [("out", floatsJson outs)])
+  | "constrain" =>
+      let inv ← getBool j "inverse"
+      let bs := (← getFloats j "beta_sigmoid").headD 1.0
+      let bp := (← getFloats j "beta_softplus").headD 1.0
+      let lb ← parseBound (← j.getObjVal? "lb"); let ub ← parseBound (← j.getObjVal? "ub")
+      let xs ← getFloats j "x"
+      pure (Json.mkObj [("out", floatsJson (xs.map (fun x => if inv then constrainInv bs bp lb ub x else constrainFwd bs bp lb ub x))),
+                        ("case", Json.num (JsonNumber.fromNat (boundCase lb ub)))])
   | "norm_dims" =>
       let ndim ← getNat j "ndim"; let dims ← getInts j "dims"
       pure (match dims.mapM (normIndex ndim) with
